@@ -350,6 +350,70 @@ pub fn lookup_table_tuples(prover: &MockProver<F>, name: &str) -> Option<Vec<(us
     Some(out)
 }
 
+/// As [`lookup_table_tuples`] for the *input* expressions, together with the advice columns the
+/// input expressions read at the current row.
+pub fn lookup_input_tuples(prover: &MockProver<F>, name: &str) -> Option<(Vec<(usize, Vec<F>)>, Vec<usize>)> {
+    use midnight_proofs::dev::CellValue;
+    let cs = prover.cs();
+    let lk = cs.lookups().iter().find(|l| l.name() == name)?;
+    let n = prover.fixed().first().map(|c| c.len()).or_else(|| prover.advice().first().map(|c| c.len()))?;
+    let cell = |c: &CellValue<F>| match c {
+        CellValue::Assigned(v) => *v,
+        _ => F::from(0),
+    };
+    let at = |row: usize, rot: i32| ((row as i64 + rot as i64).rem_euclid(n as i64)) as usize;
+    let mut cols: Vec<usize> = vec![];
+    for e in lk.input_expressions() {
+        let q: Vec<(usize, i32)> = e.evaluate(
+            &|_| vec![],
+            &|_| vec![],
+            &|_| vec![],
+            &|q| vec![(q.column_index(), q.rotation().0)],
+            &|_| vec![],
+            &|_| vec![],
+            &|a| a,
+            &|mut a: Vec<(usize, i32)>, b| {
+                a.extend(b);
+                a
+            },
+            &|mut a: Vec<(usize, i32)>, b| {
+                a.extend(b);
+                a
+            },
+            &|a, _| a,
+        );
+        cols.extend(q.into_iter().filter(|(_, r)| *r == 0).map(|(c, _)| c));
+    }
+    cols.sort();
+    cols.dedup();
+    let mut out = vec![];
+    for row in prover.usable_rows().clone() {
+        let t: Vec<F> = lk
+            .input_expressions()
+            .iter()
+            .map(|e| {
+                e.evaluate(
+                    &|c| c,
+                    &|_| panic!("selectors are fixed columns in a MockProver"),
+                    &|q| cell(&prover.fixed()[q.column_index()][at(row, q.rotation().0)]),
+                    &|q| cell(&prover.advice()[q.column_index()][at(row, q.rotation().0)]),
+                    &|q| match &prover.instance()[q.column_index()][at(row, q.rotation().0)] {
+                        InstanceValue::Assigned(v) => *v,
+                        InstanceValue::Padding => F::from(0),
+                    },
+                    &|_| F::from(0),
+                    &|a| -a,
+                    &|a, b| a + b,
+                    &|a, b| a * b,
+                    &|a, s| a * s,
+                )
+            })
+            .collect();
+        out.push((row, t));
+    }
+    Some((out, cols))
+}
+
 /// Rows of a dynamic table whose key coordinates coincide while another coordinate differs: a
 /// lookup into such a table can be answered with either row. Rows whose key is all-zero (the
 /// default of unused rows) are ignored. Returns (row a, row b) pairs, at most `max`.
